@@ -402,15 +402,33 @@ fn gen_case(tape: &[u8]) -> Case {
     let auth = if t.chance(55) { Some(gen_token(&mut t)) } else { None };
     let n_headers = t.weighted(&[22, 24, 26, 16, 12]);
     let invalid_slot = if n_headers > 0 && t.chance(18) { Some(t.below(n_headers)) } else { None };
-    let headers: Vec<String> = (0..n_headers).map(|i| gen_header_arg(&mut t, Some(i) != invalid_slot)).collect();
+    let mut headers: Vec<String> = (0..n_headers).map(|i| gen_header_arg(&mut t, Some(i) != invalid_slot)).collect();
+    // a repeated header name (possibly in another case) with its own value: every --header is carried
+    if n_headers >= 2 && invalid_slot.is_none() && t.chance(35) {
+        if let Ok((first_name, _)) = model_header(&headers[0]) {
+            let name = if t.chance(50) { first_name.to_ascii_uppercase() } else { first_name.clone() };
+            let last = headers.len() - 1;
+            headers[last] = format!("{}: {}", name, gen_header_value(&mut t));
+        }
+    }
     let output = if t.chance(75) { Some(t.pick(&["schema.json", "out.json", "introspection result.json", "schema", "Schéma.JSON"]).to_string()) } else { None };
     let pre: Option<Vec<u8>> = if output.is_some() {
         match t.weighted(&[25, 40, 35]) {
             0 => None,
             1 => Some(b"{\n  \"data\": {\"__schema\": {\"queryType\": {\"name\": \"OldQuery\"}, \"types\": []}}\n}\n".to_vec()),
             _ => {
-                let n = t.range(1, 120);
-                Some((0..n).map(|_| t.byte()).collect())
+                if t.chance(50) {
+                    // an old schema file much longer than anything served here: a stale tail must not survive a successful run
+                    let mut old = String::from("{\n  \"data\": {\"__schema\": {\"queryType\": {\"name\": \"OldQuery\"}, \"types\": [\n");
+                    for i in 0..4000 {
+                        old.push_str(&format!("    {{\"kind\": \"SCALAR\", \"name\": \"Old{}\"}},\n", i));
+                    }
+                    old.push_str("    {\"kind\": \"SCALAR\", \"name\": \"OldLast\"}\n  ]}}\n}\n");
+                    Some(old.into_bytes())
+                } else {
+                    let n = t.range(1, 120);
+                    Some((0..n).map(|_| t.byte()).collect())
+                }
             }
         }
     } else {
